@@ -205,6 +205,7 @@ def run(rep, tier, seed):
     from contracts.c14_heat import all_contracts
     cs, table = all_contracts(tier)
     run_contracts(rep, cs, table, tier=tier, replayers=[(r"frame", _replay_frame)])
+    rep.assume("D28 element types: allocations with dtype=x.dtype / full_like / empty_like / piecewise keep the integer type of an integer-typed argument (integer-typed variants of the contracts)")
     _purity(rep, seed)
     rep.assume("L: the multi-scale kernel is positive definite (Reininghaus et al. 2015), hence the radicand is >= 0 in real arithmetic (precondition of heat's contract)",
                "L: pseudo-metric laws and Wasserstein stability follow from the kernel form (sampled only)",
